@@ -149,7 +149,8 @@ func c02BFS(r *Run) {
 	mkey := func(u map[string]bool) string { return strings.Join(sortedKeys(u), ",") }
 
 	bfs := &BFS{
-		Scn: scn, MaxDepth: 200, ValidatePaths: true,
+		SeqDepth: map[string]int{"quick": 2, "thorough": 3}[r.Tier],
+		Scn:      scn, MaxDepth: 200, ValidatePaths: true,
 		Init: func(r *Run, w *World, root *Node) {
 			u := map[string]bool{"1/5": true}
 			root.Model, root.MKey = model{u}, mkey(u)
